@@ -237,6 +237,10 @@ def classic_2fma(a: fp.Real, b: fp.Real, c: fp.Real):
     a1, a2 = classic_2sum(c, u2)
     b1, b2 = classic_2sum(u1, a1)
     g = (b1 - r1) + b2
-    r2, r3 = fast_2sum(g, a2)
+    # Fast2Sum step, inlined: Boldo and Muller show it is exact here although
+    # `|g| >= |a2|` (asserted by `fast_2sum`) need not hold, e.g., when `g` is zero
+    r2 = g + a2
+    z = r2 - g
+    r3 = a2 - z
 
     return r1, r2, r3
